@@ -114,6 +114,12 @@ func signerKey() (string, error) {
 	return keyPEM, keyErr
 }
 
+// what the authenticator says when a refresh / revalidation is due
+const (
+	rotatedToken = "at-rotated-1"
+	rotatedGroup = "rotated"
+)
+
 func upstreamYAML(backAddr string) (string, map[string]string) {
 	var y strings.Builder
 	vars := map[string]string{}
@@ -124,6 +130,9 @@ func upstreamYAML(backAddr string) (string, map[string]string) {
 					svc := svcName(pass, inj, pf, hm)
 					fmt.Fprintf(&y, "- service: %s\n  default:\n    from: %s\n    to: %s\n    options:\n", svc, hostOf(svc), backAddr)
 					fmt.Fprintf(&y, "      allowed_email_domains:\n        - %s\n", allowedDomain)
+					if pass {
+						fmt.Fprintf(&y, "      allowed_groups:\n        - %s\n        - eng\n", rotatedGroup)
+					}
 					fmt.Fprintf(&y, "      skip_auth_regex:\n        - ^/public/\n")
 					switch inj {
 					case "none":
@@ -141,6 +150,9 @@ func upstreamYAML(backAddr string) (string, map[string]string) {
 						ss := skipSignName(pass, inj, pf)
 						fmt.Fprintf(&y, "- service: %s\n  default:\n    from: %s\n    to: %s\n    options:\n", ss, hostOf(ss), backAddr)
 						fmt.Fprintf(&y, "      allowed_email_domains:\n        - %s\n      skip_auth_regex:\n        - ^/public/\n      skip_request_signing: true\n", allowedDomain)
+						if pass {
+							fmt.Fprintf(&y, "      allowed_groups:\n        - %s\n        - eng\n", rotatedGroup)
+						}
 						switch inj {
 						case "none":
 						case "cov":
@@ -168,6 +180,11 @@ func NewWorld() (*World, error) {
 	}
 	w := &World{}
 	w.FA = world.NewFakeAuth("proxy-client-id", "proxy-client-secret")
+	w.FA.Script(map[string]world.Answer{
+		"refresh":  {Class: "ok", ExpiresIn: 7200, Token: rotatedToken},
+		"validate": {Class: "ok"},
+		"profile":  {Class: "ok", Groups: []string{rotatedGroup}},
+	})
 	w.Back = world.NewBackend("fw")
 	yaml, vars := upstreamYAML(w.Back.Addr())
 	for i := 0; i < 2; i++ {
